@@ -369,12 +369,11 @@ pub fn remaining_line_content<'a>(input: &'a mut LineReader) -> Result<&'a str, 
         input.reader.advance(offset);
         return Err(unexpected(input, "a newline"));
     }
-    input.line_at_offset(offset + 1);
-
     let bytes = &input.reader.buf()[..offset];
 
     match std::str::from_utf8(bytes) {
         Ok(_line) => {
+            input.line_at_offset(offset + 1);
             // SAFETY we just checked this,
             Ok(unsafe {
                 std::str::from_utf8_unchecked(&input.reader.advance_with_buf(offset + 1)[..offset])
